@@ -150,6 +150,7 @@ def elab_histories(rnd, n, maxlen):
     tg = [("sig", k) for k in range(3)] + [("ref", i, p) for i in range(3) for p in E_PORTS] + [("noconn",), ("bit", 0),
                                                                                               ("bit", 1), ("cat", 0)]
     tg += [("held", i, p) for i in range(3) for p in E_PORTS] + [("catref", i, p) for i in range(3) for p in E_PORTS]
+    tg += [("bref", 0), ("bref", 1)]
     for _ in range(n):
         L = rnd.randint(2, maxlen)
         yield tuple((rnd.choice(E_FORMS + ("disconnect",)), rnd.randrange(3), rnd.choice(E_PORTS), rnd.choice(tg))
@@ -159,8 +160,8 @@ def elab_histories(rnd, n, maxlen):
 def small_elab_histories():
     """reference taken while the port is on X, port re-connected to Y afterwards (every X, Y); replaced references;
     a reference that was replaced before the port got a no-connect"""
-    xs = [("sig", 0), ("ref", 2, "a"), ("noconn",), ("bit", 0), ("cat", 0)]
-    ys = [("sig", 1), ("ref", 2, "b"), ("bit", 1), ("noconn",)]
+    xs = [("sig", 0), ("ref", 2, "a"), ("noconn",), ("bit", 0), ("cat", 0), ("bref", 0)]
+    ys = [("sig", 1), ("ref", 2, "b"), ("bit", 1), ("noconn",), ("bref", 1)]
     for x in xs:
         for y in ys:
             for f in ("setattr", "replace", "connect"):
@@ -188,6 +189,10 @@ def check_elab_history(hist):
     sigs = [top.add(h.Signal(name=f"s{k}")) for k in range(3)]
     bus = top.add(h.Signal(name="bus", width=2))
     insts = [top.add(E()(), name=f"i{k}") for k in range(3)]
+    BB = h.Bundle(name="C04B")
+    BB.add(h.Signal(name="x"))
+    BB.add(h.Signal(name="y"))
+    bb = top.add(BB(), name="bb")
     view = {}
     held = {(i, p): getattr(insts[i], p) for i in range(3) for p in E_PORTS}    # references saved before anything happens
 
@@ -204,6 +209,8 @@ def check_elab_history(hist):
             return bus[t[1]]
         if t[0] == "cat":
             return h.Concat(bus[t[1]])
+        if t[0] == "bref":
+            return getattr(bb, "xy"[t[1]])        # an attribute of a bundle instance: a declared source like any signal
         return h.NoConn()
     w = {"elab_history": repr(hist)}
     for step, (op, i, p, t) in enumerate(hist):
@@ -274,6 +281,8 @@ def check_elab_history(hist):
             union(("dev", i, p), ("dev", t[1], t[2]))
         elif t[0] in ("bit", "cat"):
             union(("dev", i, p), ("bus", t[1]))
+        elif t[0] == "bref":
+            union(("dev", i, p), ("bref", t[1]))
     want = {}
     for i in range(3):
         for p in E_PORTS:
